@@ -56,7 +56,8 @@ Ltac brute :=
          request_ready, map_p, upd_p, with_st, with_players, with_result, sv;
   repeat match goal with |- context [if ?c then _ else _] => destruct c end; reflexivity.
 
-Lemma sv_pay g i chips w : sv (pay g i chips w) = sv g. Proof. brute. Qed.
+Lemma sv_pay g i chips w : sv (pay g i chips w) = sv g.
+Proof. pose proof (qv_pay g i chips w) as H. unfold qv in H. unfold sv. injection H as -> _ _ _ -> -> -> _ -> _ _ _. reflexivity. Qed.
 Lemma sv_round_closed g : sv (round_closed g) = sv g. Proof. brute. Qed.
 Lemma sv_set_current g i : sv (set_current g i) = sv g. Proof. brute. Qed.
 Lemma sv_reset_all g : sv (reset_all g) = sv g. Proof. brute. Qed.
